@@ -18,6 +18,7 @@ template <typename T>
 T parseNumber(const char* s);
 
 class VariantData {
+  ARDUINOJSON_VERIF_FRIEND
   VariantContent content_;  // must be first to allow cast from array to variant
   VariantType type_;
   SlotId next_;
